@@ -248,6 +248,14 @@ class Livetime(
 
         (t_start_idx, t_end_idx) = self._get_onoff_interval_indices(
             (t_start, t_end))
+
+        # Check if there is any on-time interval within the given time range.
+        # This is not the case if the time range lies entirely before the first
+        # on-time interval, after the last on-time interval, or within an
+        # off-time interval.
+        if (t_end_idx + t_end_idx % 2) <= (t_start_idx - t_start_idx % 2):
+            return np.empty((0, 2), dtype=np.float64)
+
         if t_start_idx % 2 == 0:
             # t_start is during off-time. Use the next on-time lower edge as
             # first on-time edge.
